@@ -18,7 +18,7 @@ meta = {
     "breaks": breaks,
     "needs_to_manifest": needs,
     "demonstration": demo,
-    "origin": "fresh sub-agent given only the property text (round 2: plus a focus on some of the property's own anchors) and a scratch worktree of /repo",
+    "origin": "fresh sub-agent given only the property text (rounds 2 and 3: plus a focus on some of the property's own anchors) and a scratch worktree of /repo",
     "confirmed_by_me": {
         "how": "tools/confirm_seed.sh in the scratch worktree: git apply patch.diff; cargo test --workspace --no-fail-fast --offline (148 lib + 16 integration + 1 wasm pass; only the seed demo tests fail); cargo test --offline --test %s fails with the patch and passes after git checkout" % demo[:-3],
         "log": "confirm.txt",
